@@ -18,7 +18,7 @@
 import abc
 import copy
 import dataclasses
-from typing import Any, Callable, Dict, Iterable, List, Mapping, Sequence, Tuple, Union
+from typing import Any, Callable, Dict, Iterable, List, Mapping, Sequence, Set, Tuple, Union
 
 from fiddle._src import config as config_lib
 from fiddle._src import daglish
@@ -547,6 +547,8 @@ class _DiffFromAlignmentBuilder:
   def __init__(self, alignment: DiffAlignment):
     self.changes: List[DiffOperation] = []
     self.new_shared_values: List[Any] = []
+    # Ids of aligned tuples in `new` that differ from their old counterpart.
+    self.replaced_tuple_ids: Set[int] = set()
     self.alignment: DiffAlignment = alignment
     self.paths_by_old_id = daglish_legacy.collect_paths_by_id(
         alignment.old, memoizable_only=True)
@@ -593,7 +595,20 @@ class _DiffFromAlignmentBuilder:
     # `Reference`s where appropriate.
     diff_value = yield
 
-    if not self.alignment.is_new_value_aligned(new_value):  # New object.
+    is_aligned = self.alignment.is_new_value_aligned(new_value)
+    if is_aligned and isinstance(new_value, tuple):
+      # Tuples are immutable, so an aligned old tuple can not be modified in
+      # place. If any element changed, treat `new_value` as a new object (its
+      # parents will then replace the old tuple).
+      old_value = self.alignment.old_from_new(new_value)
+      if not all(
+          self.aligned_or_equal(old_child, new_child)
+          for old_child, new_child in zip(old_value, new_value)
+      ):
+        self.replaced_tuple_ids.add(id(new_value))
+        is_aligned = False
+
+    if not is_aligned:  # New object.
       if len(new_paths) == 1 or not daglish.is_memoizable(new_value):
         return diff_value
       else:
@@ -697,6 +712,8 @@ class _DiffFromAlignmentBuilder:
       old_value: A value reachable from `self.alignment.old`.
       new_value: A value reachable from `self.alignment.new`.
     """
+    if id(new_value) in self.replaced_tuple_ids:
+      return False
     if daglish.is_memoizable(new_value) or daglish.is_memoizable(old_value):
       return (self.alignment.is_old_value_aligned(old_value) and
               self.alignment.new_from_old(old_value) is new_value)
